@@ -21,6 +21,8 @@
      Start        the caller (holding a permit) creates the task that runs the helper
      Complete(t)  the environment lets the running body of task t return    (resolves the future it awaits)
      Fail(t)      the environment lets the running body of task t raise
+     FailCancelled(t)  the running body of task t raises asyncio.CancelledError on its own: the future it awaits is
+                  cancelled (nobody called cancel() on the task or on the helper)
      Step         asyncio runs the callback at the head of the ready queue:
                     <<"H",0>>  a step of the helper
                     <<"T",t>>  a step of task t  (`async with sema: return await pf()`)
@@ -54,8 +56,8 @@ VARIABLES
   hexc,     \* task whose exception the helper raised
   hval,     \* the list the helper returned: sequence of [ok, id]
   \* ---- history variables used only by the properties
-  fails,    \* tasks in the order in which their bodies raised
-  outcome   \* what the environment did to the task's body: none | ok | fail
+  fails,    \* the exceptions in the order in which the bodies raised them (task id; 0: a CancelledError of the body's own)
+  outcome   \* what the environment did to the task's body: none | ok | fail | cancel
 
 vars == <<mode, bound, value, sq, tpc, must, cbs, hpc, gout, gexc, nfin, wcount, rq, hres, hexc, hval, fails, outcome>>
 
@@ -116,6 +118,13 @@ Fail(t) ==
   /\ rq' = Append(rq, <<"T", t>>)
   /\ UNCHANGED <<mode, bound, value, sq, must, cbs, hpc, gout, gexc, nfin, wcount, hres, hexc, hval, fails>>
 
+FailCancelled(t) ==
+  /\ tpc[t] = "run"
+  /\ tpc' = [tpc EXCEPT ![t] = "canc_run"]
+  /\ outcome' = [outcome EXCEPT ![t] = "cancel"]
+  /\ rq' = Append(rq, <<"T", t>>)
+  /\ UNCHANGED <<mode, bound, value, sq, must, cbs, hpc, gout, gexc, nfin, wcount, hres, hexc, hval, fails>>
+
 ----------------------------------------------------------------------------
 \* ---- a step of task t --------------------------------------------------------------------------
 \* the task ends in state st after the semaphore operation w (a record of Wake/Release/NoWake): the woken
@@ -126,7 +135,8 @@ Finish(t, st, w) ==
   /\ must' = [must EXCEPT ![t] = FALSE]
   /\ cbs' = [cbs EXCEPT ![t] = <<>>]
   /\ rq' = Tail(rq) \o WokenEntry(w.who) \o CbEntries(t)
-  /\ fails' = IF st = "failed" THEN Append(fails, t) ELSE fails
+  /\ fails' = IF st = "failed" THEN Append(fails, t)
+             ELSE IF st = "cancelled" /\ outcome[t] = "cancel" THEN Append(fails, 0) ELSE fails
 
 \* the task enters its body (awaits the future the environment resolves) after the semaphore operation w
 Enter(t, w) ==
@@ -163,7 +173,8 @@ RqC(S)   == LET ts == Ordered(LAMBDA t : t \in S /\ tpc[t] \in {"acq", "run"}) I
 
 ----------------------------------------------------------------------------
 \* ---- a step of the helper ----------------------------------------------------------------------
-Results == [i \in 1..N |-> [ok |-> tpc[i] = "done", id |-> i]]
+\* (in return mode the wrapper of a task whose body raised CancelledError returns (None, CancelledError): id 0)
+Results == [i \in 1..N |-> [ok |-> tpc[i] = "done", id |-> IF tpc[i] = "cancelled" THEN 0 ELSE i]]
 
 HelperStep ==
   /\ UNCHANGED <<mode, bound, nfin, fails, outcome>>
@@ -189,7 +200,7 @@ HelperStep ==
             /\ hres' = "raised" /\ hexc' = gexc /\ hpc' = "end"
             /\ rq' = Tail(rq)
             /\ UNCHANGED <<value, sq, tpc, must, cbs, gout, gexc, wcount, hval>>
-       [] hpc = "gwoken" /\ gout = "exc" /\ mode = "raise_cancel" /\ ~Fixed ->
+       [] hpc = "gwoken" /\ gout = "exc" /\ mode = "raise_cancel" /\ ~Fixed /\ (\E t \in Tasks : tpc[t] = "failed") ->
             \* finally: for task in tasks: finished with an exception -> `raise exc`; unfinished -> cancel
             LET ff == CHOOSE t \in Tasks : tpc[t] = "failed" /\ \A u \in 1..(t - 1) : tpc[u] # "failed"
                 S  == {t \in 1..(ff - 1) : tpc[t] \notin Terminal}
@@ -198,7 +209,7 @@ HelperStep ==
             /\ rq' = Tail(rq) \o RqC(S)
             /\ hres' = "raised" /\ hexc' = ff /\ hpc' = "end"
             /\ UNCHANGED <<value, cbs, gout, gexc, wcount, hval>>
-       [] hpc = "gwoken" /\ gout = "exc" /\ mode = "raise_cancel" /\ Fixed ->
+       [] hpc = "gwoken" /\ gout = "exc" /\ mode = "raise_cancel" /\ (Fixed \/ ~\E t \in Tasks : tpc[t] = "failed") ->
             \* finally: cancel every unfinished task; WithoutSemaphore.__aenter__ (release); asyncio.wait(tasks)
             LET S == {t \in Tasks : tpc[t] \notin Terminal}
                 w == Release(value, SqC(S))
@@ -255,10 +266,10 @@ Step ==
        [] e[1] = "G" -> GatherCb(e[2])
        [] e[1] = "W" -> WaitCb
 
-Next == Start \/ (\E t \in Tasks : Complete(t) \/ Fail(t)) \/ Step
+Next == Start \/ (\E t \in Tasks : Complete(t) \/ Fail(t) \/ FailCancelled(t)) \/ Step
 
 Spec == Init /\ [][Next]_vars
-FairSpec == Spec /\ WF_vars(Step) /\ WF_vars(Start) /\ \A t \in Tasks : WF_vars(Complete(t) \/ Fail(t))
+FairSpec == Spec /\ WF_vars(Step) /\ WF_vars(Start) /\ \A t \in Tasks : WF_vars(Complete(t) \/ Fail(t) \/ FailCancelled(t))
 
 ----------------------------------------------------------------------------
 \* ---- properties ---------------------------------------------------------------------------
@@ -273,13 +284,15 @@ C20_Bound == Cardinality({t \in Tasks : tpc[t] \in Holding}) <= bound
 
 \* results in submission order, one per partial function
 C20_Order == hres = "returned" => /\ Len(hval) = N
-                                  /\ \A i \in 1..N : hval[i].id = i /\ (mode # "return" => hval[i].ok)
+                                  /\ \A i \in 1..N : /\ (hval[i].id = i \/ (mode = "return" /\ outcome[i] = "cancel" /\ hval[i].id = 0))
+                                                       /\ (mode # "return" => hval[i].ok)
 
-\* return_exceptions: never raises; every result or exception is returned in place
+\* return_exceptions: never raises; every result or exception (also a CancelledError raised by a body) is returned in place
 C20_ReturnAll == mode = "return" => /\ hres # "raised"
-                                    /\ hres = "returned" => \A i \in 1..N : hval[i] = [ok |-> outcome[i] = "ok", id |-> i]
+                                    /\ hres = "returned" => \A i \in 1..N : hval[i] = [ok |-> outcome[i] = "ok", id |-> IF outcome[i] = "cancel" THEN 0 ELSE i]
 
 \* raise variants: returns only if nothing failed; raises the first exception in completion order
+\* (a CancelledError raised by a partial function is an exception raised by a partial function)
 C20_RaiseFirst == mode # "return" =>
                     /\ hres = "returned" => fails = <<>> /\ \A t \in Tasks : outcome[t] = "ok"
                     /\ hres = "raised" => fails # <<>> /\ hexc = fails[1]
@@ -288,13 +301,13 @@ C20_RaiseFirst == mode # "return" =>
 C20_CancelOnError == (mode = "raise_cancel" /\ hres = "raised") => \A t \in Tasks : tpc[t] \in Terminal
 
 \* on normal return no task is running
-C20_NoneRunningOnReturn == hres = "returned" => \A t \in Tasks : tpc[t] \in {"done", "failed"}
+C20_NoneRunningOnReturn == hres = "returned" => \A t \in Tasks : tpc[t] \in Terminal
 
 \* the helper's own acquire in WithoutSemaphore.__aexit__ never has to wait
 C20_HelperNeverBlocks == hpc # "hacq"
 
 \* a task that was cancelled never ran to completion afterwards, and only cancel_on_error cancels
-C20_CancelOnlyWhenAsked == (\E t \in Tasks : tpc[t] \in {"cancelled", "canc_acq", "canc_run"} \/ must[t]) => mode = "raise_cancel" /\ gout = "exc"
+C20_CancelOnlyWhenAsked == (\E t \in Tasks : outcome[t] # "cancel" /\ (tpc[t] \in {"cancelled", "canc_acq", "canc_run"} \/ must[t])) => mode = "raise_cancel" /\ gout = "exc"
 
 \* ---- extra invariants (reported in the evidence, not part of C20's verdict): permit conservation
 X_PermitsOnReturn == hres = "returned" => value = bound - 1                  \* the caller holds its permit again
